@@ -129,15 +129,18 @@ def correspondence(res, tier, seed):
 # ------------------------------------------------------------------ laws on the implementation
 TOL = 1e-12
 
-def law_violations(m, xs, ys, r):
+def law_violations(m, xs, ys, r, dtype=None):
     """evaluate the C16 laws on the implementation for sample xs (and target ys); returns list of (class, detail)"""
     from ibicus.utils import sort_array_like_another_one
     out = []
     fx, fy = fl(xs), fl(ys)
+    if dtype is not None:      # whole-number samples stored as integers / single precision
+        fx, fy = fx.astype(dtype), fy.astype(dtype)
     pts = sorted(eval_points(r, xs, k=8))
     fp = fl(pts)
     const = len(set(xs)) == 1
     scale = max(1.0, float(np.max(np.abs(fx))), float(np.max(np.abs(fy))))
+    if dtype is np.float32: scale *= 1e4        # single-precision samples: results carry single-precision rounding
     for em in ECDF:
         e = m.ecdf(fx, fp, method=em)
         if np.any(~np.isfinite(e)) or np.any(e < -TOL) or np.any(e > 1 + TOL):
@@ -177,10 +180,37 @@ def law_violations(m, xs, ys, r):
     if len(set(xs)) == len(xs):
         zs = gen_sample(r, n=len(xs), ties=r.random() < 0.3)
         fz = fl(zs)
+        if dtype is not None: fz = np.round(fz).astype(dtype)
         mv = m.quantile_map_non_parametically(fx, fz, fx)
         want = np.sort(fz)[np.argsort(np.argsort(fx))]
         if not np.array_equal(mv, want):
             out.append(("equal-size-rank-transfer", dict(target=fz.tolist(), got=mv.tolist(), want=want.tolist())))
+        # the interpolated pair is exact at the sample points too: ecdf(x_(k)) = k/(n-1), iecdf(k/(n-1)) = z_(k)
+        if len(xs) >= 2:
+            e = m.ecdf(fx, fx, method="linear_interpolation")
+            wante = np.argsort(np.argsort(fx)) / (len(xs) - 1)
+            if np.any(np.abs(e - wante) > 1e-9):
+                out.append(("ecdf-linear-at-sample-points", dict(got=e.tolist(), want=wante.tolist())))
+            mv = m.quantile_map_non_parametically(fx, fz, fx, ecdf_method="linear_interpolation", iecdf_method="linear")
+            if np.any(np.abs(mv - want) > 1e-9 * scale):
+                out.append(("equal-size-rank-transfer:linear_interpolation/linear", dict(got=mv.tolist(), want=want.tolist())))
+    # the functions keep nothing between calls: a sample buffer refilled in place gives the result of the new content
+    buf = fx.copy(); new = fl(gen_sample(r, n=len(xs)))
+    if dtype is not None: new = np.round(new * 8).astype(dtype)
+    for im in IECDF:
+        m.iecdf(buf, ps, method=im)
+    first = m.IECDF(buf)(ps)
+    buf[:] = new
+    for im in IECDF:
+        if not np.array_equal(m.iecdf(buf, ps, method=im), m.iecdf(buf.copy(), ps, method=im), equal_nan=True):
+            out.append(("stale-sample:iecdf:" + im, {}))
+    if not np.array_equal(m.IECDF(buf)(ps), m.IECDF(buf.copy())(ps)):
+        out.append(("stale-sample:IECDF", {}))
+    for em in ECDF:
+        if not np.array_equal(m.ecdf(buf, fp, method=em), m.ecdf(buf.copy(), fp, method=em), equal_nan=True):
+            out.append(("stale-sample:ecdf:" + em, {}))
+    if not np.array_equal(m.quantile_map_non_parametically(buf, fy, fp), m.quantile_map_non_parametically(buf.copy(), fy, fp), equal_nan=True):
+        out.append(("stale-sample:quantile_map", {}))
     zs = gen_sample(r, n=len(xs))
     fz = fl(zs)
     s = sort_array_like_another_one(fx, fz)
@@ -207,10 +237,21 @@ def search(res, tier, seed, deep=False):
         else:
             xs = gen_sample(r)
         ys = gen_sample(r)
+        dtype = None
+        if i % 6 == 4:           # whole-number records stored as integers or in single precision
+            k = r.choice([3, 5, 9, 17, 30])
+            if r.random() < 0.5:
+                xs = r.sample(range(-40, 60), k)
+            else:
+                xs = [r.randint(-10, 10) for _ in range(k)]
+            ys = [r.randint(-30, 30) for _ in range(r.choice([3, 8, 20]))]
+            if len(set(ys)) < 2: ys[0] = ys[0] + 7
+            if len(set(xs)) < 2: xs[0] = xs[0] + 7
+            dtype = r.choice([np.int64, np.int32, np.float32])
         with warnings.catch_warnings():
             warnings.simplefilter("ignore")
             try:
-                bad = law_violations(m, xs, ys, r)
+                bad = law_violations(m, xs, ys, r, dtype)
             except Exception as e:
                 bad = [("exception:" + type(e).__name__, dict(error=repr(e)[:300]))]
         res.case(("laws", len(xs), len(set(xs)) < len(xs), len(set(xs)) == 1))
@@ -218,7 +259,7 @@ def search(res, tier, seed, deep=False):
             if cls in seen: continue
             seen.add(cls)
             res.witness(dict(component="utils._math_utils", statement="ecdf/iecdf/quantile-map law violated on the implementation: " + cls,
-                             input=dict(x=[str(v) for v in xs], y=[str(v) for v in ys]), observed=det,
+                             input=dict(x=[str(v) for v in xs], y=[str(v) for v in ys], dtype=(np.dtype(dtype).name if dtype is not None else "float64")), observed=det,
                              expected="range/monotonicity/end-point/rank laws of C16", **{"class": cls}))
     res.components["search"] = dict(samples=n, note="laws evaluated for all 3 ecdf x 9 iecdf methods per sample")
 
